@@ -10,7 +10,9 @@ for d in sorted(glob.glob(os.path.join(os.path.dirname(__file__), "..", "seeded"
     caught = ("`./check %s quick`: " % m.get("check_property", m["property"])) + m.get("how_caught", "")
     if not m.get("caught_by_quick", True):
         caught = "NOT caught by quick; " + m.get("how_caught", "")
-    if m.get("superseded_by"):
+    if m.get("neutralised_by"):
+        caught = "(when it was written: " + caught + ") NEUTRALISED: the change still applies but no longer breaks the property - " + m["neutralised_by"] + "; the self-test expects the check to pass with it"
+    elif m.get("superseded_by"):
         caught = "(when it was written: " + caught + ") NO LONGER APPLICABLE: " + m["superseded_by"]
     elif m.get("rebased_onto"):
         caught += " [carried over onto " + m["rebased_onto"] + " by a three-way merge]"
